@@ -1436,3 +1436,6 @@ def replay(ctx, data):
     for d in r["disagreements"]:
         print("disagreement:", d["why"])
     return not r["violations"] and not r["disagreements"]
+
+
+DRIVER_OPS = ["lex"]   # per-area driver executable(s) this check talks to (built before any worker is forked)
